@@ -825,6 +825,8 @@ def bi_str(I, args, kw):
         return VStr("None")
     if isinstance(v, VBool):
         return VStr(z3.If(v.e, z3.StringVal("True"), z3.StringVal("False")))
+    if isinstance(v, VUn) and v.t.nm in STRLIKE:
+        return v
     return I.ver.opaque_str("str", v, I)
 
 
@@ -900,6 +902,8 @@ def _isinst(I, v, nm):
         return nm in ("str",)
     if isinstance(v, VNone):
         return nm == "NoneType"
+    if isinstance(v, VUn) and v.t.nm in STRLIKE:
+        return nm == "str"
     if isinstance(v, (VMap, VDictRec)):
         return nm in ("dict", "Mapping", "MutableMapping", "OrderedDict") if not (nm == "OrderedDict" and getattr(v, "order", None) is None) else False
     if isinstance(v, (VSeq, VEmptyList)):
